@@ -147,7 +147,7 @@ class Checker:
         self.obls = []
         self.seed = seed
 
-    def identity(self, name, statement, leaf, diffs, functions, extra_note='', raw=None):
+    def identity(self, name, statement, leaf, diffs, functions, extra_note='', raw=None, replay=None):
         """diffs: list of Poly that must vanish identically (after facts/substitution)."""
         o = Obl(name, 'A', statement, functions, 'all field elements (symbolic coordinates, no bound); path: %d decisions' % len(leaf.pc),
                 ['base field modelled as Z/q with the contracts proved by engine L (mul, squared, sum_of_products, div2)'])
@@ -201,14 +201,16 @@ class Checker:
                 o.status = 'violated-unreplayed'
                 o.cex = env
                 o.detail = 'identity refuted (z3: %s): residual polynomial of degree %d, e.g. %r' % (r, nz[0].degree(), nz[0])
+        o.replay = replay
         self.obls.append(o)
         return o
 
-    def fail(self, name, statement, detail, functions=None, status='violated-unreplayed', cex=None):
+    def fail(self, name, statement, detail, functions=None, status='violated-unreplayed', cex=None, replay=None):
         o = Obl(name, 'A', statement, functions or [], '', [])
         o.status = status
         o.detail = detail
         o.cex = cex
+        o.replay = replay
         o.queries = 1
         self.obls.append(o)
         return o
@@ -331,7 +333,8 @@ def check_tower(ck, leaves_by_task, family, names=None):
             for k, sp in enumerate(specs):
                 d += tower_diffs(outs[k * n:(k + 1) * n], sp, n)
                 raw += list(zip(lf.out[k * n:(k + 1) * n], coords(sp, n)))
-            ck.identity(nm, '%s equals the operation in F_q[w]/(w^12+2) (u=w^6, v=w^3) on all elements' % task, lf, d, [fn + ':' + task], raw=raw)
+            ck.identity(nm, '%s equals the operation in F_q[w]/(w^12+2) (u=w^6, v=w^3) on all elements' % task, lf, d, [fn + ':' + task], raw=raw,
+                        replay=dict(kind='tower', task=task, specs=[c for sp in specs for c in coords(sp, n)]))
     if family == 'fq4':
         for k in (10, 11, 12, 21, 22, 30, 31, 32):
             task = 'fq4_frob_%d' % k
@@ -343,7 +346,8 @@ def check_tower(ck, leaves_by_task, family, names=None):
                     continue
                 sp = fq4_frob_spec(k)
                 ck.identity('A-' + task, 'Fq4::frobenius_map(%d) = (c*w^%d)^(q^%d) / w^%d, constants recomputed from q' % (k, k % 10, k // 10, k % 10), lf,
-                            tower_diffs(lf.outs(), sp, 4), ['src/fields/fq4.rs:frobenius_map'], raw=list(zip(lf.out, coords(sp, 4))))
+                            tower_diffs(lf.outs(), sp, 4), ['src/fields/fq4.rs:frobenius_map'], raw=list(zip(lf.out, coords(sp, 4))),
+                            replay=dict(kind='tower', task=task, specs=coords(sp, 4)))
 
 
 def check_inverse(ck, leaves, n, task, fnname):
@@ -361,7 +365,7 @@ def check_inverse(ck, leaves, n, task, fnname):
         if flag == 1:
             I = {2: from_fq2, 4: from_fq4, 12: from_fq12}[n](outs[1:1 + n])
             d = (X * I - 1)
-            ck.identity(nm, '%s: x * inverse(x) = 1 for every non-zero x' % task, lf, list(d.c), [fnname])
+            ck.identity(nm, '%s: x * inverse(x) = 1 for every non-zero x' % task, lf, list(d.c), [fnname], replay=dict(kind='inverse', task=task, n=n))
         else:
             # None leaf: the last true decision must be "N == 0" with N the norm of x to F_q (up to sign)
             decs = [d for d in lf.decisions() if d[0] == 'eq' and d[2]]
@@ -466,6 +470,14 @@ class GroupCheck:
             if p.is_zero():
                 continue
             vs = p.vars()
+            if len(p.t) == 1 and len(vs) == 1 and next(iter(vs)).startswith('Z'):
+                # c * Z^k == 0  <=>  Z == 0 (integral domain)
+                v = next(iter(vs))
+                if o:
+                    sub[v] = Poly.const(0)
+                else:
+                    nz.append(V(v))
+                continue
             if len(p.t) <= 2 and len(vs) == 1 and p.degree() == 1 and next(iter(vs)).startswith('Z'):
                 v = next(iter(vs))
                 c1 = p.t.get(((v, 1),), 0)
@@ -553,18 +565,24 @@ class GroupCheck:
 
     def check_sum(self, task, li, lf, P1, P2, R, what, ysign=1):
         """R = P1 + P2 on this leaf (P2 already negated for sub)"""
+        o = self._check_sum(task, li, lf, P1, P2, R, what, ysign)
+        return o
+
+    def _check_sum(self, task, li, lf, P1, P2, R, what, ysign=1):
         ck = self.ck
+        parts = task.split('_')
+        rp = lambda case: dict(kind='group', op=parts[1].replace('ref', ''), modes=parts[2], case=case)
         nm = 'A-%s#%d' % (task, li)
         sub, nz, rest, P1, P2 = self.leaf_state(lf, P1, P2)
         R = tuple(apply_sub(c, sub) for c in R)
         Z1, Z2 = P1[2], P2[2]
         stmt = '%s: every leaf returns the chord-and-tangent sum (any representative)' % what
         if Z1.is_zero() and Z2.is_zero():
-            return ck.identity(nm, stmt + ' [O + O = O]', lf, [R[2]], [self.src])
+            return ck.identity(nm, stmt + ' [O + O = O]', lf, [R[2]], [self.src], replay=rp('independent'))
         if Z1.is_zero() or Z2.is_zero():
             other = P2 if Z1.is_zero() else P1
             d = self.same_point_diffs(R, self.affine(other))
-            o = ck.identity(nm, stmt + ' [identity operand: result denotes the other operand]', lf, d, [self.src])
+            o = ck.identity(nm, stmt + ' [identity operand: result denotes the other operand]', lf, d, [self.src], replay=rp('independent'))
             if o.status == 'proved' and not is_unit_product(R[2], [other[2]]):
                 o.status, o.detail = 'violated-unreplayed', 'identity + P returned a value whose z is not a unit multiple of z(P)'
             return o
@@ -586,11 +604,11 @@ class GroupCheck:
                      (True, True, False): 'equal points', (True, False, True): 'opposite points'}[case]
             z3c = ap(R[2])
             if h and not r:
-                o = ck.identity(nm + ':' + label.replace(' ', '_'), stmt + ' [P + (-P) = O]', lf, [z3c], [self.src])
+                o = ck.identity(nm + ':' + label.replace(' ', '_'), stmt + ' [P + (-P) = O]', lf, [z3c], [self.src], replay=rp(label))
             else:
                 A = self.tangent(P1) if h else self.chord(P1, P2)
                 d = [ap(x) for x in self.same_point_diffs(R, A)]
-                o = ck.identity(nm + ':' + label.replace(' ', '_'), stmt + ' [%s]' % label, lf, d, [self.src])
+                o = ck.identity(nm + ':' + label.replace(' ', '_'), stmt + ' [%s]' % label, lf, d, [self.src], replay=rp(label))
                 atoms = [Z1, Z2] + ([P1[1]] if h else [ap(Hs)])
                 if o.status == 'proved' and not is_unit_product(z3c, atoms):
                     if z3c.is_zero():
@@ -632,9 +650,9 @@ class GroupCheck:
                 R = tuple(apply_sub(c, sub) for c in lf.outs()[0:3])
                 nm = 'A-%s_double_%s#%d' % (pfx, m, li)
                 if P1[2].is_zero():
-                    ck.identity(nm, 'double(O) = O for every representation of the identity', lf, [R[2]], [self.src])
+                    ck.identity(nm, 'double(O) = O for every representation of the identity', lf, [R[2]], [self.src], replay=dict(kind='group', op='double', modes=m, case='independent'))
                 else:
-                    o = ck.identity(nm, 'double = tangent law (any representative)', lf, self.same_point_diffs(R, self.tangent(P1)), [self.src])
+                    o = ck.identity(nm, 'double = tangent law (any representative)', lf, self.same_point_diffs(R, self.tangent(P1)), [self.src], replay=dict(kind='group', op='double', modes=m, case='independent'))
                     if o.status == 'proved' and not is_unit_product(R[2], [P1[1], P1[2]]):
                         o.status, o.detail = 'inconclusive', 'z of 2P is not a unit multiple of y*z'
             for li, lf in enumerate(by.get('%s_neg_%s' % (pfx, m), [])):
@@ -643,10 +661,10 @@ class GroupCheck:
                 R = tuple(apply_sub(c, sub) for c in lf.outs()[0:3])
                 nm = 'A-%s_neg_%s#%d' % (pfx, m, li)
                 if P1[2].is_zero():
-                    ck.identity(nm, '-O = O', lf, [R[2]], [self.src])
+                    ck.identity(nm, '-O = O', lf, [R[2]], [self.src], replay=dict(kind='group', op='neg', modes=m, case='independent'))
                 else:
                     x, y = self.affine(P1)
-                    o = ck.identity(nm, '-P = (x, -y)', lf, self.same_point_diffs(R, (x, -y)), [self.src])
+                    o = ck.identity(nm, '-P = (x, -y)', lf, self.same_point_diffs(R, (x, -y)), [self.src], replay=dict(kind='group', op='neg', modes=m, case='independent'))
                     if o.status == 'proved' and not is_unit_product(R[2], [P1[2]]):
                         o.status, o.detail = 'inconclusive', 'z of -P is not a unit multiple of z'
             for li, lf in enumerate(by.get('%s_toaffine_%s' % (pfx, m), [])):
@@ -660,7 +678,7 @@ class GroupCheck:
                     ck.fail(nm, 'to_affine is None exactly for z = 0', 'None returned on a path with z != 0', [self.src])
                 else:
                     X, Y, Z = P1
-                    ck.identity(nm, 'to_affine = (X/Z^2, Y/Z^3)', lf, [outs[1] * Z * Z - X, outs[2] * Z * Z * Z - Y], [self.src])
+                    ck.identity(nm, 'to_affine = (X/Z^2, Y/Z^3)', lf, [outs[1] * Z * Z - X, outs[2] * Z * Z * Z - Y], [self.src], replay=dict(kind='group', op='toaffine', modes=m, case='independent'))
             for li, lf in enumerate(by.get('%s_iszero_%s' % (pfx, m), [])):
                 P1 = self.pt('1', m)
                 sub, nz, rest, P1, _ = self.leaf_state(lf, P1, None)
@@ -688,7 +706,8 @@ class GroupCheck:
         if other:
             return ck.fail(nm, stmt, 'equality decided by a quantity that is neither x- nor y-cross-difference: %r' % (other[0][0],), [self.src], status='inconclusive')
         if bad:
-            return ck.fail(nm, stmt, 'returns %s for a feasible relation (x equal=%s, y equal=%s, y opposite=%s)' % ((flag,) + bad[0]), [self.src], cex={'eq_case': bad[0]})
+            label = {(False, False, False): 'independent', (False, False, True): 'opposite y, different x', (False, True, False): 'equal y, different x', (True, True, False): 'equal points', (True, False, True): 'opposite points'}[bad[0]]
+            return ck.fail(nm, stmt, 'returns %s for a feasible relation (x equal=%s, y equal=%s, y opposite=%s)' % ((flag,) + bad[0]), [self.src], replay=dict(kind='group', op='eq', modes=task.split('_')[2], case=label))
         return ck.ok(nm, stmt, 'flag=%s consistent with all %d feasible relations of this leaf' % (flag, len(cases)), [self.src])
 
     def check_affine_new(self, li, lf):
@@ -711,6 +730,278 @@ class GroupCheck:
             return ck.fail(nm, stmt, 'Ok=%s although curve equation decided %s' % (ok, first[2]), [self.src])
         if ok:
             outs = lf.outs()
-            if not ((outs[1] - X).is_zero() and (outs[2] - Y).is_zero()):
+            if not ((outs[2] - X).is_zero() and (outs[3] - Y).is_zero()):
                 return ck.fail(nm, stmt, 'Ok point does not carry the given coordinates', [self.src])
         return ck.ok(nm, stmt, 'decision polynomial = y^2 - x^3 - b; Ok <=> true', [self.src])
+
+
+def finalize(ck, pid):
+    """replay every refuted obligation natively before it is reported"""
+    import algreplay
+    from common import write_replay
+    for o in ck.obls:
+        if o.status != 'violated-unreplayed':
+            continue
+        rp = getattr(o, 'replay', None)
+        rep, wit = False, {}
+        try:
+            if rp and rp['kind'] == 'group':
+                for sd in range(2):
+                    rep, wit = algreplay.replay_group(rp['op'], rp['modes'], rp['case'], sd)
+                    if rep:
+                        break
+            elif rp and rp['kind'] == 'tower':
+                envs = []
+                if getattr(o, 'cex', None):
+                    envs.append(o.cex)
+                import random
+                vs = sorted(set().union(*[p.vars() for p in rp['specs']])) if rp['specs'] else []
+                for sd in range(3):
+                    r = random.Random(99 + sd)
+                    envs.append({v: r.randrange(Q) for v in vs})
+                for env in envs:
+                    env = {v: env.get(v, 1) for v in vs}
+                    rep, wit = algreplay.replay_tower(rp['task'], env, rp['specs'], len(rp['specs']))
+                    if rep:
+                        break
+            elif rp and rp['kind'] == 'inverse':
+                import random
+                n = rp['n']
+                names = {2: ['x0', 'x1'], 4: ['x00', 'x01', 'x10', 'x11'],
+                         12: ['x%d%d%d' % (i, j, k) for i in range(3) for j in range(2) for k in range(2)]}[n]
+                idx = {2: IDX2, 4: IDX4, 12: IDX12}[n]
+                for sd in range(4):
+                    r = random.Random(7 + sd)
+                    env = {v: r.randrange(Q) for v in names}
+                    if sd == 1 and n == 12:   # an element of the F_q4 subfield
+                        for v in names[4:]:
+                            env[v] = 0
+                    out, err = algreplay.native_alg(rp['task'], env)
+                    if out is None:
+                        wit = {'error': err}
+                        break
+                    xs = [0] * 12
+                    ys = [0] * 12
+                    for v, i in zip(names, idx):
+                        xs[i] = env[v]
+                    for val, i in zip(out[1:1 + n], idx):
+                        ys[i] = val
+                    prod = nmul(xs, ys)
+                    if out[0] != 1 or prod != [1] + [0] * 11:
+                        rep, wit = True, {'task': rp['task'], 'inputs': {k: '%064x' % v for k, v in env.items()}, 'native_output': ['%064x' % x for x in out], 'mismatch': 'x * inverse(x) != 1'}
+                        break
+        except Exception as e:  # replay machinery failure is never a verdict
+            wit = {'error': repr(e)}
+        if rep:
+            o.status = 'violated'
+            o.witness = write_replay(pid, o.name, dict(property=pid, engine='A', obligation=o.name, statement=o.statement, solver_detail=o.detail, native_replay=wit,
+                                                        how_to_replay='./check %s --replay <this file>' % pid))
+            o.detail = 'reproduced natively on the real build: %s | %s' % (wit.get('mismatch', 'output differs from the reference'), o.detail)
+        else:
+            o.status = 'inconclusive'
+            o.detail = 'solver refuted the obligation but native replay did not reproduce it (%s): %s' % (wit.get('error', 'outputs agree with the reference on the tried witnesses'), o.detail)
+
+
+def check_affine_new_flat(ck, leaves, pfx):
+    """AffineG1/AffineG2::new on the REAL parameters (flat F_q coordinates): curve equation with b = 5 resp. 5u;
+    for G2 additionally: Ok exactly when the z-coordinate of (r-1)P + P - computed with the verified group
+    operations - is decided zero"""
+    n = 1 if pfx == 'g1' else 2
+    src = 'src/groups.rs:AffineG::new'
+    if n == 1:
+        X, Y = tw(V('X1')), tw(V('Y1'))
+        C = Y * Y - X * X * X - 5
+    else:
+        X, Y = t2('X1'), t2('Y1')
+        C = Y * Y - X * X * X - U * 5
+    comps = coords(C, n)
+    kinds = set()
+    for li, lf in enumerate(leaves):
+        nm = 'A-%s_affine_new#%d' % (pfx, li)
+        if lf.panic:
+            ck.fail(nm, 'no panic leaf', lf.panic, [src])
+            continue
+        stmt = 'AffineG%d::new: Ok exactly when y^2 = x^3 + %s%s' % (n, '5' if n == 1 else '5u', '' if n == 1 else ' and z((r-1)P + P) = 0')
+        # only the curve-equation decisions are turned into polynomials (the later ones sit on the 256-step chain)
+        decs = [(k, lf.dag.p(a) - lf.dag.p(b), o) for k, a, b, o in lf.pc[:n]]
+        outs = [lf.dag.p(i) for i in lf.out[:2 + 2 * n]]
+        flag, kind = outs[0] == 1, outs[1] == 1
+        on_curve = True
+        bad = None
+        for i in range(n):
+            if i >= len(decs):
+                bad = 'missing curve-equation decision'
+                break
+            if not unit_multiple(decs[i][1], comps[i]):
+                bad = 'decision %d is not component %d of y^2 - x^3 - b: %r' % (i, i, decs[i][1])
+                break
+            if not decs[i][2]:
+                on_curve = False
+                break
+        if bad:
+            ck.fail(nm, stmt, bad, [src], replay=dict(kind='affine_new', pfx=pfx))
+            continue
+        if not on_curve:
+            kinds.add('offcurve')
+            (ck.ok if (not flag and not kind) else ck.fail)(nm, stmt, 'curve equation false -> %s' % ('Err(NotOnCurve)' if not flag and not kind else 'flag=%s kind=%s' % (flag, kind)), [src])
+            continue
+        if n == 1:
+            kinds.add('ok')
+            good = flag and (outs[2] - V('X1')).is_zero() and (outs[3] - V('Y1')).is_zero() and len(lf.pc) == 1
+            (ck.ok if good else ck.fail)(nm, stmt, 'curve equation true -> Ok carrying (x, y): %s' % good, [src], **({} if good else {'replay': dict(kind='affine_new', pfx=pfx)}))
+            continue
+        refz = lf.out[6:8]
+        zero_ids = set(d[2] if d[1] in refz else d[1] for d in lf.pc if d[0] == 'eq' and (d[1] in refz or d[2] in refz))
+        zdec = [d for d in lf.pc if d[0] == 'eq' and (d[1] in refz or d[2] in refz)]
+        if not zdec:
+            ck.fail(nm, stmt, 'on-curve leaf without a decision on z((r-1)P + P): subgroup test missing', [src], replay=dict(kind='affine_new', pfx=pfx))
+            continue
+        zc = [lf.dag.n[z][1] == 'const' and int(lf.dag.n[z][2], 16) == 0 for z in zero_ids]
+        in_sub = all(d[3] for d in zdec) and len(zdec) == 2
+        if in_sub:
+            kinds.add('ok')
+            good = flag and all(zc) and (outs[2] - V('X10')).is_zero() and (outs[3] - V('X11')).is_zero() and (outs[4] - V('Y10')).is_zero() and (outs[5] - V('Y11')).is_zero()
+        else:
+            kinds.add('notinsub')
+            good = (not flag) and kind and all(zc)
+        (ck.ok if good else ck.fail)(nm, stmt, 'on curve, z((r-1)P+P)==0 decided %s -> flag=%s kind=%s' % ([d[3] for d in zdec], flag, kind), [src],
+                                       **({} if good else {'replay': dict(kind='affine_new', pfx=pfx)}))
+    need = {'offcurve', 'ok'} | ({'notinsub'} if n == 2 else set())
+    if not need <= kinds:
+        ck.fail('A-%s_affine_new-coverage' % pfx, 'all outcome classes explored', 'missing leaf classes: %s' % (need - kinds), [src], status='inconclusive')
+
+
+def check_zero_one(ck, leaves, pfx):
+    """identity is (0,1,0); generator on the curve; b; scalar of the subgroup test = r-1"""
+    import algreplay
+    n = 1 if pfx == 'g1' else 2
+    lf = leaves[0]
+    o = [p.t.get((), 0) if not p.vars() else None for p in lf.outs()]
+    src = 'src/groups.rs:GroupParams'
+    if any(v is None for v in o):
+        return ck.fail('A-%s_zero_one' % pfx, 'constants', 'non-constant output', [src], status='inconclusive')
+    zero = o[0:3 * n]
+    gen = o[3 * n:6 * n]
+    b = o[6 * n:7 * n]
+    m1 = o[7 * n]
+    F = algreplay.F1 if n == 1 else algreplay.F2
+    mk = (lambda c: c[0]) if n == 1 else (lambda c: tuple(c))
+    Z = [mk(zero[i * n:(i + 1) * n]) for i in range(3)]
+    Gp = [mk(gen[i * n:(i + 1) * n]) for i in range(3)]
+    okz = Z[2] == F.zero
+    G = (algreplay.G1X, algreplay.G1Y) if n == 1 else (algreplay.G2X, algreplay.G2Y)
+    okg = (Gp[0], Gp[1]) == G and Gp[2] == F.one
+    wantb = 5 if n == 1 else (0, 5)
+    okb = mk(b) == wantb
+    okm = m1 == RORD - 1
+    # generator on the curve and of order r (exact integer arithmetic with the affine reference)
+    y2 = F.mul(G[1], G[1])
+    x3b = F.add(F.mul(F.mul(G[0], G[0]), G[0]), wantb)
+    okc = y2 == x3b
+    okr = algreplay.aff_mul(F, G, RORD) is None
+    good = okz and okg and okb and okm and okc and okr
+    (ck.ok if good else ck.fail)('A-%s_zero_one' % pfx, 'zero() has z = 0; one() is the standard generator (on the curve, r*G = O by the affine reference); b = %s; subgroup-test scalar = r-1' % ('5' if n == 1 else '5u'),
+                                 'zero z=0:%s generator:%s b:%s scalar r-1:%s on curve:%s order r:%s' % (okz, okg, okb, okm, okc, okr), [src])
+
+
+def check_normalize(ck, by, pfx):
+    """Group::normalize (lib.rs): identity values stay identity; otherwise (X/Z^2, Y/Z^3, 1)"""
+    n = 1 if pfx == 'g1' else 2
+    nmP = 'P' if pfx == 'g1' else 'Q'
+    for m in 'joa':
+        for li, lf in enumerate(by.get('wrap_%s_normalize_%s' % (pfx, m), [])):
+            nm = 'A-%s_normalize_%s#%d' % (pfx, m, li)
+            src = 'src/lib.rs:Group::normalize'
+            if lf.panic:
+                ck.fail(nm, 'no panic leaf', lf.panic, [src])
+                continue
+            outs = lf.outs()
+            if n == 1:
+                X, Y = tw(V('X' + nmP)), tw(V('Y' + nmP))
+                Z = {'a': tw(1), 'o': tw(0)}.get(m) or tw(V('Z' + nmP))
+                R = [tw(o) for o in outs[0:3]]
+            else:
+                X, Y = t2('X' + nmP), t2('Y' + nmP)
+                Z = {'a': tw(1), 'o': tw(0)}.get(m) or t2('Z' + nmP)
+                R = [from_fq2(outs[0:2]), from_fq2(outs[2:4]), from_fq2(outs[4:6])]
+            # variable-level decisions (z components against 0 / 1) become substitutions
+            decs = lf.decisions()
+            zvars = set(Z.c[0].vars() | Z.c[6].vars())
+            lin = [d for d in decs if d[0] == 'eq' and d[2] and d[1].degree() == 1 and len(d[1].vars()) == 1 and d[1].vars() <= zvars]
+            sub = solve_subst(lin)
+            # a leaf on which the norm z0^2 + 2 z1^2 is decided zero although z != 0 is infeasible (-2 is a non-residue)
+            if n == 2 and m == 'j':
+                nz_ = (Z * Z.conj(6)).c[0]
+                if any(d[0] == 'eq' and d[2] and unit_multiple(d[1], nz_) for d in decs):
+                    ck.ok(nm, 'normalize: leaf infeasible', 'norm(z) = 0 decided on a path with z != 0: infeasible because -2 is a quadratic non-residue mod q', [src])
+                    continue
+            Zs = Z.map(lambda p: apply_sub(p, sub))
+            Rs = [r.map(lambda p: apply_sub(p, sub)) for r in R]
+            if Zs.is_zero():
+                ck.identity(nm, 'normalize leaves an identity value an identity (any x, y)', lf, list(Rs[2].c), [src])
+            else:
+                d = list((Rs[2] - 1).c) + list((Rs[0] * Zs * Zs - X).c) + list((Rs[1] * Zs * Zs * Zs - Y).c)
+                ck.identity(nm, 'normalize yields (X/Z^2, Y/Z^3, 1): same point, z = 1', lf, d, [src])
+
+
+def run_parts(pid, parts, seed=0, thorough=False):
+    """run the requested engine-A obligation groups; returns Checker (obligations finalized: replayed)"""
+    import alg
+    ck = Checker(pid, seed)
+    exe, msg = alg.overlay_exe()
+    if not exe:
+        ck.fail('A-overlay', 'overlay build', msg, status='inconclusive')
+        return ck
+    cache = {}
+
+    def leaves(fam, only=''):
+        k = (fam, only)
+        if k not in cache:
+            ls = [Leaf(d) for d in alg.run_task(exe, fam, only) if 'truncated' not in d]
+            by = {}
+            for l in ls:
+                by.setdefault(l.task, []).append(l)
+            cache[k] = by
+        return cache[k]
+    for part in parts:
+        if part in ('fq2', 'fq4'):
+            by = leaves(part)
+            check_tower(ck, by, part)
+            n = int(part[2])
+            check_inverse(ck, by.get(part + '_inv', []), n, part + '_inv', 'src/fields/%s.rs:inverse' % part)
+        elif part == 'fq12':
+            by = {}
+            for t in tower_specs()['fq12']:
+                by.update(leaves('fq12', t))
+            check_tower(ck, by, 'fq12')
+        elif part == 'fq12_gt':
+            by = {}
+            names = ['fq12_mul', 'fq12_one_zero', 'fq12_pow_0', 'fq12_pow_1', 'fq12_pow_2', 'fq12_pow_3']
+            for t in names:
+                by.update(leaves('fq12', t))
+            check_tower(ck, by, 'fq12', names=set(names))
+        elif part == 'fq12_inv':
+            by = leaves('fq12', 'fq12_inv')
+            lv = by.get('fq12_inv', [])
+            check_inverse(ck, [l for l in lv if thorough or (l.out and l.outs()[0] == 1)], 12, 'fq12_inv', 'src/fields/fq12.rs:inverse')
+        elif part.startswith('gabs'):
+            by = leaves('gabs')
+            g = Checker(pid, seed)
+            GroupCheck(g, 'gabs').run(by)
+            keep = {'gabs_law': ('_add_', '_sub_', '_addassign', '_double_', '_neg_'), 'gabs_eq': ('_eq_', '_toaffine_', '_iszero_'),
+                    'gabs_toaffine': ('_toaffine_',), 'gabs_new': ('_affine_new',), 'gabs_all': ('',)}[part]
+            ck.obls += [o for o in g.obls if any(k in o.name for k in keep)]
+        elif part == 'affine_new':
+            for pfx in ('g1', 'g2'):
+                check_affine_new_flat(ck, leaves(pfx, pfx + '_affine_new').get(pfx + '_affine_new', []), pfx)
+        elif part == 'consts':
+            for pfx in ('g1', 'g2'):
+                check_zero_one(ck, leaves(pfx, pfx + '_zero_one').get(pfx + '_zero_one', []), pfx)
+        elif part == 'normalize':
+            by = leaves('wrap', 'wrap_g*')
+            for pfx in ('g1', 'g2'):
+                check_normalize(ck, by, pfx)
+        else:
+            ck.fail('A-' + part, 'known part', 'unknown part', status='inconclusive')
+    finalize(ck, pid)
+    return ck
